@@ -33,7 +33,7 @@ class Contract:
     """
 
     def __init__(self, target, params, result=None, requires=None, ensures=None, raises=(), modifies=(), loops=None,
-                 spec_fns=None, inline=False, inline_callees=(), props=(), note="", trusted=False, witness=None, exposes=None, defines=None, ghost=None, locals=None, let_abstraction=True, adapt=None, instance=None, axioms=None, ghost_locals=None):
+                 spec_fns=None, inline=False, inline_callees=(), props=(), note="", trusted=False, witness=None, exposes=None, defines=None, ghost=None, locals=None, let_abstraction=True, adapt=None, instance=None, axioms=None, ghost_locals=None, raises_when=None):
         self.target = target
         self.module, self.qual = target.split(":")
         self.params = dict(params)
@@ -56,6 +56,7 @@ class Contract:
         self.locals = dict(locals or {})    # declared types of locals that start as empty literals
         self.let_abstraction = let_abstraction     # False: keep large array entries expanded (specs that mirror the code term by term)
         self.axioms = list((axioms or {}).items())      # mathematical facts assumed inside the body proof (not required of callers); each is listed as an assumption
+        self.raises_when = dict(raises_when or {})    # {ExcName: spec over the LOCALS at the raise}: the exception may only escape from a state satisfying the spec (no completeness claim)
         self.ghost_locals = dict(ghost_locals or {})   # {name: type}: ghost variables of the body (arbitrary initial value; written by ghost hooks only)
         self.instance = instance   # distinguishes several contracts of one function (separate ledger entries)
         self.adapt = adapt     # replay only: concretised arguments (plain data) -> arguments of the real call (e.g. a record to the real class)
@@ -98,7 +99,7 @@ def verify_function(contract, registry, label_prefix="", feas_timeout_ms=250):
         eng = Engine(registry, feas_timeout_ms=feas_timeout_ms)
         eng.contract = contract
         eng.label = f"{label_prefix}{contract.qual}"
-        eng.allowed_raises = [e for e, _ in contract.raises]
+        eng.allowed_raises = [e for e, _ in contract.raises] + list(contract.raises_when)
 
         def run():
             env = {}
@@ -147,6 +148,12 @@ def verify_function(contract, registry, label_prefix="", feas_timeout_ms=250):
                                note="a normal return is only allowed when the raise condition is false")
                 return ("return", result)
             allowed = [(exc, cond) for exc, cond in contract.raises if exc_isa(raised.cls, exc)]
+            when = [(exc, cond) for exc, cond in contract.raises_when.items() if exc_isa(raised.cls, exc)]
+            if when and not allowed:
+                for exc, cond in when:
+                    eng.oblige("raises.when", f"{exc}@{eng.site(raised.node)}", eng.spec_eval(cond, dict(env), old_env=entry), raised.node,
+                               note="the exception may only escape from a state that satisfies the stated condition")
+                return ("raise", raised.cls)
             if not allowed:
                 eng.oblige("safe@" + raised.cls, f"unexpected@{eng.site(raised.node)}", False, raised.node,
                            note="an exception the contract does not allow escapes on this path")
